@@ -32,6 +32,38 @@ Proof.
   - destruct (Reqb_spec (- (1) * a) a) as [H|H]; [|discriminate]. exfalso. lra.
 Qed.
 
+(** the sign test of the bracket ends: Sign(fl) * Sign(fr) >= 0 is fl * fr >= 0, without forming the product *)
+Lemma sign_prod_geb a b : (sign1 ROps a * sign1 ROps b >=? 0)%Z = Rleb 0 (a * b).
+Proof.
+  destruct (sign1_cases a) as [[A1 A2]|[[A1 A2]|[A1 A2]]], (sign1_cases b) as [[B1 B2]|[[B1 B2]|[B1 B2]]];
+    rewrite A2, B2; cbn; destruct (Rleb_spec 0 (a * b)); try reflexivity; exfalso; subst; nra.
+Qed.
+
+(** scaling the three function values by a positive number changes neither the sign of f1 - f2 nor the ratio
+    f3 / sqrt(f3^2 - f1 f2): the scaled step of the source is Ridder's step *)
+Lemma sign1_scaled x sc : 0 < sc -> sign1 ROps (x / sc) = sign1 ROps x.
+Proof.
+  intros Hs. assert (0 < / sc) by (apply Rinv_0_lt_compat; exact Hs).
+  destruct (sign1_cases x) as [[A1 A2]|[[A1 A2]|[A1 A2]]], (sign1_cases (x / sc)) as [[B1 B2]|[[B1 B2]|[B1 B2]]];
+    rewrite A2, B2; try reflexivity; exfalso; unfold Rdiv in *; subst; nra.
+Qed.
+Lemma ratio_scaled f1 f2 f3 sc : 0 < sc -> f1 * f2 < 0 ->
+  f3 / sc / sqrt (f3 / sc * (f3 / sc) - f1 / sc * (f2 / sc)) = f3 / sqrt (f3 * f3 - f1 * f2).
+Proof.
+  intros Hs H12.
+  assert (P : 0 < f3 * f3 - f1 * f2) by nra.
+  replace (f3 / sc * (f3 / sc) - f1 / sc * (f2 / sc)) with ((f3 * f3 - f1 * f2) / (sc * sc)) by (field; lra).
+  rewrite sqrt_div_alt by nra. rewrite sqrt_square by lra.
+  assert (0 < sqrt (f3 * f3 - f1 * f2)) by (apply sqrt_lt_R0; exact P).
+  field. split; lra.
+Qed.
+Lemma scale_pos f1 f2 f3 : f1 * f2 < 0 -> 0 < nmax ROps (Rabs f3) (nmax ROps (Rabs f1) (Rabs f2)).
+Proof.
+  intros H. assert (0 < Rabs f1) by (apply Rabs_pos_lt; intros Z; rewrite Z in H; lra).
+  pose proof (Rabs_pos f2). pose proof (Rabs_pos f3).
+  unfold nmax. cbn [nltb ROps]. destruct (Rltb_spec (Rabs f1) (Rabs f2)); match goal with |- context [Rltb ?a ?b] => destruct (Rltb_spec a b) end; lra.
+Qed.
+
 (** ** Geometry of one Ridder step *)
 Lemma ridder_ratio a b c : a * b < 0 -> Rabs (c / sqrt (c * c - a * b)) < 1.
 Proof.
@@ -134,10 +166,27 @@ Definition step_tail (s : @st R) (x3 x4 : R) : (res (R * how) + @st R) * list R 
     else if nneb ROps (sign2 ROps (sf1 s) f4) (sf1 s) then next (mkst (sx1 s) x4 (sf1 s) f4 x4)
     else if nneb ROps (sign2 ROps (sf2 s) f4) (sf2 s) then next (mkst x4 (sx2 s) f4 (sf2 s) x4)
     else (inl Exit, [x3; x4]).
-Lemma step_eq s :
+Lemma step_eq s : sf1 s * sf2 s < 0 ->
   step ROps f acc s =
   step_tail s (mid s) (nmax ROps (nmin ROps (sx1 s) (sx2 s)) (nmin ROps (nmax ROps (sx1 s) (sx2 s)) (ridder s))).
-Proof. reflexivity. Qed.
+Proof.
+  intros Hs. unfold step. cbv zeta.
+  change (nisnan ROps _) with false. cbv iota.
+  pose proof (scale_pos (sf1 s) (sf2 s) (f ((sx1 s + sx2 s) / 2)) Hs) as Hsc.
+  cbn [nadd nsub nmul ndiv nabs nsqrt nofZ ROps] in *.
+  set (sc := nmax ROps (Rabs (f ((sx1 s + sx2 s) / 2))) (nmax ROps (Rabs (sf1 s)) (Rabs (sf2 s)))) in *.
+  replace (sf1 s / sc - sf2 s / sc) with ((sf1 s - sf2 s) / sc) by (field; lra).
+  rewrite (sign1_scaled _ sc Hsc).
+  replace ((sx1 s + sx2 s) / 2 + ((sx1 s + sx2 s) / 2 - sx1 s) * IZR (sign1 ROps (sf1 s - sf2 s)) * (f ((sx1 s + sx2 s) / 2) / sc) /
+             sqrt (f ((sx1 s + sx2 s) / 2) / sc * (f ((sx1 s + sx2 s) / 2) / sc) - sf1 s / sc * (sf2 s / sc)))
+    with (ridder s).
+  - reflexivity.
+  - unfold ridder, mid. pose proof (ratio_scaled (sf1 s) (sf2 s) (f ((sx1 s + sx2 s) / 2)) sc Hsc Hs) as E.
+    set (x3 := (sx1 s + sx2 s) / 2) in *. set (k := IZR (sign1 ROps (sf1 s - sf2 s))).
+    replace (x3 + (x3 - sx1 s) * k * f x3 / sqrt (f x3 * f x3 - sf1 s * sf2 s))
+      with (x3 + (x3 - sx1 s) * k * (f x3 / sqrt (f x3 * f x3 - sf1 s * sf2 s))) by (unfold Rdiv; ring).
+    rewrite <- E. unfold Rdiv. ring.
+Qed.
 
 (** [s'] is the state after a re-bracketing of [s]: invariant kept, the Ridder point is one end of the new
     bracket and the remembered result, the new bracket lies in the old one and is at most half as wide *)
@@ -169,7 +218,7 @@ Proof.
   pose proof (geom_in (sx1 s) (sx2 s) t Ht) as GI. cbv zeta in GI. fold (mid s) in GI. rewrite <- Et in GI.
   assert (Ecl : nmax ROps (nmin ROps (sx1 s) (sx2 s)) (nmin ROps (nmax ROps (sx1 s) (sx2 s)) (ridder s)) = ridder s)
     by (apply clamp_id; apply GI).
-  rewrite step_eq, Ecl. unfold step_tail. cbn.
+  rewrite (step_eq s Hs), Ecl. unfold step_tail. cbn.
   set (x3 := mid s) in *. set (x4 := ridder s) in *. set (f3 := f x3) in *. set (f4 := f x4) in *.
   destruct (Reqb_spec f4 0) as [Z4|Z4].
   { cbn [fst snd]. repeat split; try apply GI. left. split; [reflexivity|exact Z4]. }
@@ -296,6 +345,7 @@ Lemma frh_eq f a b acc : find_root_h ROps f a b acc = frh_R f (Rmin a b) (Rmax a
 Proof.
   unfold find_root_h, frh_R. fold lit0.
   change (nisnan ROps _) with false. cbn [orb].
+  rewrite !sign_prod_geb. cbn [nmul ROps].
   change (ngtb ROps a b) with (Rltb b a).
   destruct (Rltb_spec b a).
   - rewrite Rmin_right, Rmax_left by lra. reflexivity.
